@@ -26,6 +26,10 @@ type modeEv struct {
 	Reach int    `json:"reach,omitempty"` // 0 unknown 1 public 2 private
 	Old   int    `json:"old,omitempty"`   // which held stream
 	Reg   bool   `json:"reg,omitempty"`   // open: the stream's connection is listed by the network
+	Burst []int  `json:"burst,omitempty"` // reach: further reachability values emitted GapMs apart right after the first (the last one counts)
+	GapMs int    `json:"gap_ms,omitempty"`
+	Cur   []bool `json:"cur,omitempty"` // addrs: the host's current addresses after the update (true: a public one, false: a private one)
+	Rem   []bool `json:"rem,omitempty"` // addrs: the addresses that went away
 }
 
 type modeSc struct {
@@ -64,16 +68,24 @@ func TestVerif_C13_Modes(t *testing.T) {
 	const proto1 = protocol.ID("/sim/kad/1.0.0")
 	verifsim.RunCheck(t, verifsim.Check[modeSc]{
 		Property: "C13", Part: "modes",
-		Rule: "rapid: mode option in {auto, client, server, auto-server} x 1-14 events: local-reachability changes {unknown, public, private} on the real event bus, opening inbound streams (connection listed by the network or not), " +
+		Rule: "rapid: mode option in {auto, client, server, auto-server} x 1-14 events: local-reachability changes {unknown, public, private} on the real event bus (singly or in bursts of 2-4 events 0-400 ms apart), address-set updates (public / private addresses kept and removed), opening inbound streams (connection listed by the network or not), " +
 			"requests on new streams and on streams opened earlier; at every quiescent point the behaviour must equal f(option, last reachability event): in client mode no handler is registered, every listed inbound stream has been reset, a request on any " +
 			"held stream gets no response bytes; in server mode requests on new and old streams are answered; non-trivial = at least one mode switch with a held stream",
 		Gen: func(t *rapid.T) modeSc {
 			// (the two automatic modes are the ones that switch: drawn more often than the fixed ones)
 			sc := modeSc{Mode: rapid.SampledFrom([]int{int(ModeAuto), int(ModeAuto), int(ModeAutoServer), int(ModeAutoServer), int(ModeClient), int(ModeServer)}).Draw(t, "mode")}
 			sc.Events = rapid.SliceOfN(rapid.Custom(func(t *rapid.T) modeEv {
-				switch rapid.IntRange(0, 6).Draw(t, "kind") {
+				switch rapid.IntRange(0, 7).Draw(t, "kind") {
 				case 0, 1, 2:
-					return modeEv{Ev: "reach", Reach: rapid.SampledFrom([]int{0, 1, 2, 1, 2}).Draw(t, "reach")}
+					ev := modeEv{Ev: "reach", Reach: rapid.SampledFrom([]int{0, 1, 2, 1, 2}).Draw(t, "reach")}
+					if verifsim.Chance(t, "burst", 30) {
+						// AutoNAT reporting back to back while it is still probing
+						ev.Burst = rapid.SliceOfN(rapid.IntRange(0, 2), 1, 3).Draw(t, "burst")
+						ev.GapMs = rapid.SampledFrom([]int{0, 1, 20, 140, 400}).Draw(t, "gapMs")
+					}
+					return ev
+				case 6:
+					return modeEv{Ev: "addrs", Cur: rapid.SliceOfN(rapid.Bool(), 0, 3).Draw(t, "cur"), Rem: rapid.SliceOfN(rapid.Bool(), 0, 2).Draw(t, "rem")}
 				case 3:
 					return modeEv{Ev: "open", Reg: rapid.Bool().Draw(t, "reg")}
 				case 4:
@@ -86,7 +98,7 @@ func TestVerif_C13_Modes(t *testing.T) {
 		},
 		Run: func(t *testing.T, sc modeSc) (res verifsim.Result) {
 			pp := ppool()
-			switches := 0
+			switches, bursts, addrEvents := 0, 0, 0
 			out := verifsim.Bubble(t, func() {
 				h := verifnet.NewHost(peer.ID(pp.IDs[1]), []ma.Multiaddr{ma.StringCast("/ip4/8.1.1.1/tcp/1")})
 				defer h.Close()
@@ -101,6 +113,11 @@ func TestVerif_C13_Modes(t *testing.T) {
 					panic(err)
 				}
 				defer em.Close()
+				emAddr, err := h.EventBus().Emitter(new(event.EvtLocalAddressesUpdated))
+				if err != nil {
+					panic(err)
+				}
+				defer emAddr.Close()
 				var held []*heldStream
 				defer func() {
 					for _, hs := range held {
@@ -144,6 +161,26 @@ func TestVerif_C13_Modes(t *testing.T) {
 					case "reach":
 						em.Emit(event.EvtLocalReachabilityChanged{Reachability: network.Reachability(ev.Reach)})
 						last, any = ev.Reach, true
+						for _, r := range ev.Burst {
+							time.Sleep(time.Duration(ev.GapMs) * time.Millisecond)
+							em.Emit(event.EvtLocalReachabilityChanged{Reachability: network.Reachability(r)})
+							last = r
+							bursts++
+						}
+					case "addrs":
+						// the host's address set changes: no business of the mode
+						mk := func(xs []bool, base int, act event.AddrAction) (out []event.UpdatedAddress) {
+							for j, pub := range xs {
+								a := ma.StringCast(fmt.Sprintf("/ip4/192.168.%d.%d/tcp/4001", base, j+1))
+								if pub {
+									a = ma.StringCast(fmt.Sprintf("/ip4/8.%d.1.%d/tcp/4001", base, j+1))
+								}
+								out = append(out, event.UpdatedAddress{Address: a, Action: act})
+							}
+							return
+						}
+						emAddr.Emit(event.EvtLocalAddressesUpdated{Diffs: true, Current: mk(ev.Cur, 1, event.Maintained), Removed: mk(ev.Rem, 2, event.Removed)})
+						addrEvents++
 					case "open":
 						if hs := open(ev.Reg); hs != nil {
 							held = append(held, hs)
@@ -217,6 +254,12 @@ func TestVerif_C13_Modes(t *testing.T) {
 				res.Fail("terminates", "C13/modes/hang-or-panic", "%s %s\n%s", out.Deadlock, out.Panic, out.Stacks)
 			}
 			res.NonTrivial = switches > 0
+			if bursts > 0 {
+				res.Class("reachability-burst")
+			}
+			if addrEvents > 0 {
+				res.Class("address-update")
+			}
 			res.Class(fmt.Sprintf("mode-%d", sc.Mode))
 			return
 		},
